@@ -10,7 +10,7 @@ VERIF_REPO point at it, and `checks/check.py` of the copy is run.  Verdicts are 
 the same verdicts; the sandbox only keeps concurrent work on /repo undisturbed.)"""
 import json, os, subprocess, sys, time, shutil
 V = os.path.dirname(os.path.dirname(os.path.abspath(__file__)))
-SV = "/tmp/sv"
+SV = os.environ.get("SEEDTEST_DIR", "/tmp/sv")
 
 def sh(cmd, **kw):
     return subprocess.run(cmd, shell=True, capture_output=True, text=True, **kw)
@@ -24,6 +24,9 @@ def main():
         if a == "--all-props": allp = True
     ids = ids or sorted(d for d in os.listdir(os.path.join(V, "seeded")) if os.path.isfile(os.path.join(V, "seeded", d, "patch.diff")))
     os.makedirs(SV, exist_ok=True)
+    import fcntl
+    lock = open(SV + ".lock", "w")
+    fcntl.flock(lock, fcntl.LOCK_EX)      # one sandbox: concurrent invocations take turns
     if "--committed" in sys.argv:
         # the COMMITTED state of /verif (engineers may be editing the working tree): export HEAD, keep the sandbox's own build caches
         sh(f"rm -rf {SV}/export && mkdir -p {SV}/export {SV}/verif && git -C {V} archive HEAD | tar -x -C {SV}/export")
